@@ -17,14 +17,66 @@ EXPLANATION = (
     "touch its neighbour. (c) unsafe census: every unsafe operation is a call of a #[target_feature] fn of the same "
     "engine, a core::arch intrinsic, or pointer add/cast feeding one; no transmute, raw deref, static mut, union, "
     "asm, unsafe impl. Everything else is safe Rust, so a kernel given (&mut x, &mut y) can only write x and y. "
-    "(d) every Engine::eval_poly reaches utils::eval_poly(erasures, truncated_size) unchanged.")
-DECIDES = "structural identity of the butterfly schedules across optimised engines (Neon included, as a type-checked aarch64 build), byte-bounded SIMD accesses, confinement of unsafe code, one shared eval_poly."
-NOT_DECIDED = "that the SIMD nibble-shuffle kernels compute the same product as the Mul16 kernel; that Naive's one-layer schedule equals the two-layer one; that indexes passed to dist4_mut stay inside [pos, pos+size) (all arithmetic)."
-TRUSTED = ["rustc layout_of for __m128i/__m256i/uint8x16_t/[u8;64]/u128", "borrow checker: safe code writes only through the &mut it was given"]
+    "(d) every Engine::eval_poly reaches utils::eval_poly(erasures, truncated_size) unchanged. "
+    "(e) kernel siblings: one forward value-numbering pass over the MIR of mul_*, fft_butterfly_partial and "
+    "ifft_butterfly_partial of each SIMD engine (crate helpers inlined, 256-bit values as two 16-byte lanes, "
+    "intrinsics mapped through an explicit table: load/store/xor/and/shuffle/splat/shift/broadcast) yields the "
+    "final content of every written 16-byte slot as an expression DAG over ld(block,slot), tbl(lo|hi,i), xor, "
+    "shuf, niblo, nibhi; Avx2 (same build) and Neon (aarch64 build) must produce exactly the DAG of Ssse3.")
+DECIDES = "structural identity of the butterfly schedules across optimised engines and lane-wise identity of the SIMD kernels Ssse3 = Avx2 = Neon (Neon included, as a type-checked aarch64 build), byte-bounded SIMD accesses, confinement of unsafe code, one shared eval_poly."
+NOT_DECIDED = "that the SIMD nibble-shuffle kernels compute the same product as the scalar Mul16 kernel of NoSimd (relation between the Mul128 and Mul16 table contents); that Naive's one-layer schedule equals the two-layer one; that indexes passed to dist4_mut stay inside [pos, pos+size) (all arithmetic)."
+TRUSTED = ["intrinsic translation table in engine/rules/kernels.py (pshufb and tbl agree for indexes 0..15; vshrq_n_u8(x,4) == (x >> 4) & 0x0f per byte)", "rustc layout_of for __m128i/__m256i/uint8x16_t/[u8;64]/u128", "borrow checker: safe code writes only through the &mut it was given"]
 ASSUMPTIONS = ["a one-sided refactoring of a schedule function is reported even if behaviour-preserving: siblings are meant to be edited together"]
 
 IGNORE_KEYS = {'ty', 'line', 'exp', 'recv_ty', 'base_ty', 'in_unsafe', 'id', 'self_ty', 'local', 'def_kind', 'callee_features',
                'unsafe_callee', 'scrut_ty', 'unsafe', 'mode', 'to', 'from', 'trait', 'of', 'fnptr'}
+
+
+def kernel_siblings(ctx, facts_by_cfg):
+    """C03.e: lane-wise value numbering of the SIMD kernels; SSSE3 is the reference."""
+    from . import kernels
+    R = 'C03.e-kernel-siblings'
+    engines = [('ssse3', 'x86_64', 'engine::engine_ssse3::Ssse3'), ('avx2', 'x86_64', 'engine::engine_avx2::Avx2'),
+               ('neon', 'aarch64', 'engine::engine_neon::Neon')]
+    if 'i686' in facts_by_cfg:
+        engines += [('ssse3@i686', 'i686', 'engine::engine_ssse3::Ssse3'), ('avx2@i686', 'i686', 'engine::engine_avx2::Avx2')]
+    kerns = [('fft_butterfly_partial', 8), ('ifft_butterfly_partial', 8), ('mul_%s', 4)]
+    for kern, nslots in kerns:
+        dags = {}
+        for eng, cfg, adt in engines:
+            facts = facts_by_cfg.get(cfg)
+            if facts is None:
+                continue
+            name = kern % eng.split('@')[0] if '%s' in kern else kern
+            fnp = '%s::%s' % (adt, name)
+            if fnp not in facts.fns:
+                # private helper renamed: take the unique crate callee of the Engine gate that has the same arity
+                ctx.violation(R, 'anchor-missing:%s:%s' % (eng, kern), 'kernel %s not found (renamed?): %s' % (kern, fnp), fn=fnp, cfg=cfg)
+                continue
+            try:
+                mem, _ = kernels.summarise(facts, adt, fnp, None)
+                dags[eng] = (mem, fnp, cfg)
+            except kernels.Opaque as e:
+                ctx.violation(R, 'opaque:%s:%s' % (eng, name), 'kernel %s is not straight-line lane-wise code this rule can number (%s): sibling identity NOT established' % (fnp, e),
+                              site=facts.fns[fnp].span, fn=fnp, cfg=cfg)
+        if 'ssse3' not in dags:
+            continue
+        ref = dags['ssse3'][0]
+        if len(ref) != nslots:
+            ctx.violation(R, 'slots:%s' % kern, 'reference kernel %s writes %d 16-byte slots, expected %d' % (dags['ssse3'][1], len(ref), nslots), fn=dags['ssse3'][1], cfg='x86_64')
+        for eng, (mem, fnp, cfg) in sorted(dags.items()):
+            if eng == 'ssse3':
+                ctx.ok(R, 'ssse3:%s' % kern, {'slots_written': len(mem), 'sample': repr(sorted(mem.items(), key=repr)[0])[:400]})
+                continue
+            if mem == ref:
+                ctx.ok(R, '%s~ssse3:%s' % (eng, kern), {'slots_compared': len(mem)})
+            else:
+                diff = [k for k in sorted(set(mem) | set(ref), key=repr) if mem.get(k) != ref.get(k)]
+                k0 = diff[0]
+                ctx.violation(R, '%s:%s' % (eng, kern),
+                              'kernel %s computes a different lane expression than its SSSE3 sibling for bytes %d..%d of block %s: %s has %s, ssse3 has %s'
+                              % (fnp, k0[1] * 16, k0[1] * 16 + 16, k0[0], eng, brief(repr(mem.get(k0))), brief(repr(ref.get(k0)))),
+                              site=facts_by_cfg[cfg].fns[fnp].span, fn=fnp, cfg=cfg)
 
 
 def run(ctx):
@@ -33,6 +85,8 @@ def run(ctx):
     ctx.rule('C03.b-bounded-simd-access', 'every vector load/store stays inside the object its pointer was derived from')
     ctx.rule('C03.c-unsafe-census', 'unsafe code consists only of target_feature calls, core::arch intrinsics and pointer add/cast feeding them')
     ctx.rule('C03.d-one-eval-poly', 'every Engine::eval_poly reaches utils::eval_poly with its own arguments in order')
+    ctx.rule('C03.e-kernel-siblings', 'the multiply and butterfly kernels of Ssse3, Avx2 and Neon compute the same lane-wise expression DAG (value numbering over MIR, intrinsics mapped by table)')
+    ctx.guard('C03.analysable', kernel_siblings, ctx, {c: ctx.facts(c) for c in cfgs})
     for cfg in cfgs:
         facts = ctx.facts(cfg)
         ctx.guard('C03.analysable', schedules, ctx, facts, cfg)
